@@ -70,6 +70,25 @@ def lppProblemD (L : Mat N N K) (Dg : Vec N K) (F : Mat N D K) : DMat D D K × D
   let lhs := weightSumD L F
   (lhs, rhs)
 
+/-! #### the same three routines as they read after the proposed patch `fixes/F-LIN-TRI.diff`
+(the `rhs += rhsᵀ; rhs /= 2` lines removed, both matrices mirrored from their upper triangles before returning)
+and `fixes/F-LLTSA-CENTRE.diff` (the `lhs.rankUpdate(sum, -1/N)` line of LLTSA removed).
+Used only when a check is run against a patched scratch copy (`VERIF_C10_VARIANT=fixed`); they become the model
+proper once the patch is committed. -/
+
+def mirrorUpperD (A : DMat D D K) : DMat D D K := DMat.ofFn (Mat.upperView A.get)
+
+def npeProblemFixedD (W : Mat N N K) (F : Mat N D K) : DMat D D K × DMat D D K :=
+  (mirrorUpperD (weightSumD W F), mirrorUpperD (sampleSumD F (fun _ => 1)))
+
+def lltsaProblemFixedD (W : Mat N N K) (F : Mat N D K) : DMat D D K × DMat D D K :=
+  let s := DVec.ofFn (featureSum F)
+  let c : K := (-1) / (N : K)
+  (mirrorUpperD (weightSumD W F), mirrorUpperD (rankUpdate1D (sampleSumD F (fun _ => 1)) s.get c))
+
+def lppProblemFixedD (L : Mat N N K) (Dg : Vec N K) (F : Mat N D K) : DMat D D K × DMat D D K :=
+  (mirrorUpperD (weightSumD L F), mirrorUpperD (sampleSumD F Dg))
+
 def npeProblem (W : Mat N N K) (F : Mat N D K) : Mat D D K × Mat D D K :=
   ((npeProblemD W F).1.get, (npeProblemD W F).2.get)
 def lltsaProblem (W : Mat N N K) (F : Mat N D K) : Mat D D K × Mat D D K :=
